@@ -309,6 +309,42 @@ impl Outcome {
     }
 }
 
+/// Display text of an error and of its sources (cheap: never formats captured backtraces,
+/// whose symbolisation costs milliseconds per error).
+pub fn err_chain(e: &dyn std::error::Error) -> String {
+    let mut s = e.to_string();
+    let mut cur = e.source();
+    let mut n = 0;
+    while let Some(c) = cur {
+        s.push_str(" <- ");
+        s.push_str(&c.to_string());
+        cur = c.source();
+        n += 1;
+        if n > 8 {
+            break;
+        }
+    }
+    s.chars().take(400).collect()
+}
+
+/// Normalised class of an error message for violation keys: digits and hex runs removed.
+pub fn err_class(msg: &str) -> String {
+    let mut out = String::new();
+    let mut last_hash = false;
+    for c in msg.chars() {
+        if c.is_ascii_digit() {
+            if !last_hash {
+                out.push('#');
+                last_hash = true;
+            }
+        } else {
+            out.push(c);
+            last_hash = false;
+        }
+    }
+    out.chars().take(70).collect()
+}
+
 pub fn hex(b: &[u8]) -> String {
     const H: &[u8; 16] = b"0123456789abcdef";
     let mut s = String::with_capacity(b.len() * 2);
